@@ -44,7 +44,7 @@ VARIANTS = {
     "hook": ["-DKENTBECK_BPLUSTREE3_VERIF"],
     "asan": ["-DKENTBECK_BPLUSTREE3_VERIF", "-fsanitize=address", "-fno-omit-frame-pointer"],
 }
-HISTORY_TIMEOUT = int(os.environ.get("C_HARNESS_HIST_TIMEOUT", "45"))      # seconds per history
+HISTORY_TIMEOUT = int(os.environ.get("C_HARNESS_HIST_TIMEOUT", "120"))      # seconds per history
 PKG_DIR = {"hook": os.path.join(BUILD, "cpkg"), "plain": os.path.join(BUILD, "cpkg_plain"),
            "asan": os.path.join(BUILD, "cpkg_asan")}
 
@@ -654,6 +654,17 @@ def worker(variant, ops_path, trace_path, viol_path, start, status_path):
     os.close(sfd)
 
 
+def _limit_memory():
+    """a call that never stops producing (an iterator without end consumed by list()) must fail an
+    allocation instead of exhausting the machine; the ASan pass uses hard_rss_limit_mb instead"""
+    try:
+        import resource
+        lim = int(os.environ.get("BPT_MEM_LIMIT_GB", "12")) << 30
+        resource.setrlimit(resource.RLIMIT_AS, (lim, lim))
+    except Exception:      # noqa
+        pass
+
+
 # ----------------------------------------------------------------------------- main
 def run_pass(variant, ops_path, trace_path, viol_path, oracle_filter=None):
     """runs all histories in worker subprocesses; survives crashes.  oracle_filter: keep only
@@ -673,7 +684,7 @@ def run_pass(variant, ops_path, trace_path, viol_path, oracle_filter=None):
     if variant == "asan":
         lib = subprocess.run(["gcc", "-print-file-name=libasan.so"], stdout=subprocess.PIPE).stdout.decode().strip()
         env["LD_PRELOAD"] = lib
-        env["ASAN_OPTIONS"] = "detect_leaks=0:abort_on_error=1:halt_on_error=1"
+        env["ASAN_OPTIONS"] = "detect_leaks=0:abort_on_error=1:halt_on_error=1:hard_rss_limit_mb=12288"
     start = 0
     extra = []
     while start < len(hs):
@@ -684,7 +695,8 @@ def run_pass(variant, ops_path, trace_path, viol_path, oracle_filter=None):
         try:
             p = subprocess.run([sys.executable, os.path.abspath(__file__), "--worker", variant, ops_path, trace_path,
                                 tmp_viol, str(start), status_path], env=env, stdout=subprocess.PIPE,
-                               stderr=subprocess.PIPE, timeout=1500)
+                               stderr=subprocess.PIPE, timeout=1500,
+                               preexec_fn=(None if variant == "asan" else _limit_memory))
             rc, err, timed_out = p.returncode, p.stderr.decode("utf-8", "replace"), False
         except subprocess.TimeoutExpired as e:
             rc, err, timed_out = -1, (e.stderr or b"").decode("utf-8", "replace"), True
